@@ -251,12 +251,10 @@ func cleanupDBData(db *sql.DB) error {
 	queryStr := fmt.Sprintf(
 		"DELETE from expiring_signed_user_data WHERE expiration_epoch < %d",
 		time.Now().Unix())
-	rows, err := db.Query(queryStr)
-	if err != nil {
+	if _, err := db.Exec(queryStr); err != nil {
 		logger.Printf("err='%s'", err)
 		return err
 	}
-	defer rows.Close()
 	return nil
 }
 
@@ -288,12 +286,16 @@ func copyDBIntoSQLite(source, destination *sql.DB,
 		return err
 	}
 	defer tx.Rollback()
-	deleteProfilesQueryStr := fmt.Sprintf("DELETE from user_profile ")
-	if rows, err := destination.Query(deleteProfilesQueryStr); err != nil {
+	// The cache becomes a copy of the source: empty both tables inside the
+	// transaction so that deletions are mirrored too and a failed copy rolls
+	// back to the previous content.
+	if _, err := tx.Exec("DELETE from user_profile"); err != nil {
 		logger.Printf("err='%s'", err)
 		return err
-	} else {
-		rows.Close()
+	}
+	if _, err := tx.Exec("DELETE from expiring_signed_user_data"); err != nil {
+		logger.Printf("err='%s'", err)
+		return err
 	}
 	stmtText := saveUserProfileStmt[destinationType]
 	stmt, err := tx.Prepare(stmtText)
